@@ -515,4 +515,87 @@ theorem collect_ctr (sort : List File → List File) (ops : List FOp) (i : Nat) 
     simp at h ⊢
     omega
 
+/-! ## sendByRepository -/
+
+theorem groupLoop_flatten (r : Nat) (cur l : List RFile) : (groupLoop r cur l).flatten = cur ++ l := by
+  induction l generalizing r cur with
+  | nil => simp [groupLoop]
+  | cons f rest ih =>
+    unfold groupLoop
+    split
+    · simp [ih]
+    · simp [ih]
+
+theorem groupLoop_ne_nil (r : Nat) (cur l : List RFile) : groupLoop r cur l ≠ [] := by
+  induction l generalizing r cur with
+  | nil => simp [groupLoop]
+  | cons f rest ih =>
+    unfold groupLoop
+    split
+    · simp
+    · exact ih _ _
+
+theorem groups_flatten (l : List RFile) : (groups l).flatten = l := by
+  cases l with
+  | nil => rfl
+  | cons f rest => simp [groups, groupLoop_flatten]
+
+theorem groups_ne_nil (l : List RFile) (h : l ≠ []) : groups l ≠ [] := by
+  cases l with
+  | nil => exact absurd rfl h
+  | cons f rest => exact groupLoop_ne_nil _ _ _
+
+/-- every run holds files of one repository only -/
+theorem groupLoop_same_repo (r : Nat) (cur l : List RFile) (hcur : ∀ f ∈ cur, f.repo = r) :
+    ∀ g ∈ groupLoop r cur l, ∃ r', ∀ f ∈ g, f.repo = r' := by
+  induction l generalizing r cur with
+  | nil =>
+    intro g hg
+    simp [groupLoop] at hg
+    subst hg
+    exact ⟨r, hcur⟩
+  | cons f rest ih =>
+    intro g hg
+    unfold groupLoop at hg
+    split at hg
+    · simp only [List.mem_cons] at hg
+      rcases hg with rfl | hg
+      · exact ⟨r, hcur⟩
+      · exact ih f.repo [f] (by simp) g hg
+    · rename_i hne
+      have heq : r = f.repo := by simpa using hne
+      apply ih r (cur ++ [f]) _ g hg
+      intro x hx
+      simp only [List.mem_append, List.mem_singleton] at hx
+      rcases hx with hx | rfl
+      · exact hcur x hx
+      · exact heq.symm
+
+def outFiles (out : List (List RFile × Stats)) : List RFile := out.flatMap (·.1)
+def outCtr (out : List (List RFile × Stats)) (i : Nat) : Nat := (out.map (·.2.ctr i)).sum
+
+theorem attachStats_files (sort : List RFile → List RFile) (hsort : ∀ l, (sort l).Perm l) (stats : Stats)
+    (gs : List (List RFile)) : (outFiles (attachStats sort stats gs)).Perm gs.flatten := by
+  induction gs with
+  | nil => simp [attachStats, outFiles]
+  | cons g rest ih =>
+    cases rest with
+    | nil => simpa [attachStats, outFiles] using hsort g
+    | cons g2 r =>
+      simp only [attachStats, outFiles, List.flatMap_cons, List.flatten_cons] at ih ⊢
+      exact List.Perm.append (hsort g) ih
+
+theorem attachStats_ctr (sort : List RFile → List RFile) (stats : Stats) (gs : List (List RFile)) (h : gs ≠ []) (i : Nat) :
+    outCtr (attachStats sort stats gs) i = stats.ctr i := by
+  induction gs with
+  | nil => exact absurd rfl h
+  | cons g rest ih =>
+    cases rest with
+    | nil => simp [attachStats, outCtr]
+    | cons g2 r =>
+      have := ih (by simp)
+      simp only [attachStats, outCtr, List.map_cons, List.sum_cons] at this ⊢
+      rw [this]
+      simp [ctr_empty]
+
 end ZoektModel.C25
